@@ -429,14 +429,25 @@ def _analyse(case, history, final):
                     wops = sorted((o2['start'], o2['op'], o2['res']) for o2 in ops.values()
                                   if o2['op']['op'] in ('set', 'del', 'pop'))
                     if all(r is not None and r[0] == 'ok' for (_, _, r) in wops):
+                        # an open() overlapping a write can re-install an older dictionary (known finding
+                        # lost-write@open-overlaps-write); the file then really holds the prior contents
+                        # with a SUBSET of the writes applied, so those are complete dictionaries too
+                        spans = [(o2['start'], o2['end'] or INF) for o2 in ops.values()
+                                 if o2['op']['op'] in ('set', 'del', 'pop')]
+                        overlap = any(o2['op']['op'] == 'open' and any(o2['start'] < we and (o2['end'] or INF) > ws
+                                                                       for (ws, we) in spans)
+                                      for o2 in ops.values())
                         states = [dict(init)]
                         for (_, wop, _) in wops:
-                            s = dict(states[-1])
-                            if wop['op'] == 'set':
-                                s[wop['k']] = wop['v']
-                            else:
-                                s.pop(wop['k'], None)
-                            states.append(s)
+                            nxt = []
+                            for s0 in (states if overlap else states[-1:]):
+                                s = dict(s0)
+                                if wop['op'] == 'set':
+                                    s[wop['k']] = wop['v']
+                                else:
+                                    s.pop(wop['k'], None)
+                                nxt.append(s)
+                            states = states + [s for s in nxt if s not in states]
                         if kind == 'keys':
                             okay = any(set(got) == set(s) for s in states)
                         else:
